@@ -11,6 +11,7 @@ import LlirModel.Core3
     parser by the harness, also on mutants). In the model, node identity is the ID: a reference `ref n` denotes the one definition with ID `n`. -/
 namespace Llir.Meta
 open Llir Llir.Types Llir.Core2
+export Llir.Core3 (mdName isMdNameChar mdID)
 
 mutual
 inductive Field where
@@ -50,7 +51,6 @@ def sEq : Bytes := [32, 61, 32]                                      -- " = "
 def sDistinct : Bytes := [100, 105, 115, 116, 105, 110, 99, 116, 32] -- "distinct "
 def sOpenT : Bytes := [33, 123]                                      -- "!{"
 
-def mdID (n : Nat) : Bytes := 33 :: natDec n
 
 mutual
 def fieldString (useHex : Int → Bool) : Field → Bytes
@@ -73,11 +73,6 @@ def idsString : List Nat → Bytes
   | [n] => mdID n
   | n :: m :: r => mdID n ++ sSep ++ idsString (m :: r)
 
-/-- enc.MetadataName: `!` + the name with every byte outside `[-a-zA-Z$._0-9]` escaped as `\XX`, and a leading digit escaped too -/
-def mdName (name : Bytes) : Bytes :=
-  match Enc.metadataName name with
-  | .ok s => s
-  | .panic => []
 
 def namedString (n : Named) : Bytes := mdName n.name ++ sEq ++ sOpenT ++ idsString n.ids ++ [125]
 
@@ -161,7 +156,6 @@ inductive Raw where
   | blank
   deriving Inhabited
 
-def isMdNameChar (c : UInt8) : Bool := Enc.isLetter c || isDigit c || c == 92
 
 /-- one line of the metadata section -/
 def readLine (s : Bytes) : Option Raw :=
